@@ -37,6 +37,13 @@ CLAIMED = {
          "The model runs in the driver (Gauss-Jordan for inv) and is compared with createPRISM wiring, cost(x) and the post-solve state of the real code; PRISM-equation and closure residuals are "
          "evaluated on the implementation from public attributes only.",
          "4 C01", "Lean 4 proof (matrix algebra, DST inverse, mean-value theorem, induction over evaluation traces) + differential correspondence"),
+ 'C03': ("Lean theorems for EVERY evaluation of the self-consistency function (arbitrary x, other pairs, densities, omega all universally quantified): hardcore_flag_exact (c + gamma = -1 at every "
+         "r <= sigma, all four closures), py_noflag_core / hnc_noflag_core / noflag_core_bound (without the flag the miss is exactly e^{-H/kT}(1+gamma) resp. e^{gamma-H/kT}), "
+         "potential_core_agrees_with_closure_core, core_g_eq_residual (inside a flagged core the stored real-space c satisfies c + gamma_in = -1 and g = h+1 IS y/r; uses the DST inverse theorem), "
+         "core_g_bound (|g| <= |y|/r), core_g_noflag_py. The float fact exp(-x)=0 for x>745 is outside the reals and sampled. The closure/cost model is compared with the real closures (gamma up to +-50, "
+         "sigma on/off grid) and PRISM.cost on systems in which only some pairs have cores; c = -1-gamma bitwise, g = y/r after every cost(x), |g| <= |fun|/r on solved objects and core-follows-diameter on "
+         "re-used Systems are evaluated on the implementation.",
+         "4 C03", "Lean 4 proof (closure algebra + DST inverse through the cost model) + differential correspondence"),
  'C07': ("Lean theorems about the Domain model, for EVERY length N >= 1, every non-zero spacing, every finite dr/dk/length setter history and every array: "
          "construct_ok_iff, reachable_fresh (induction over histories: the state equals the fresh Domain(length, dr) and dk*dr*length = pi), grid_size/grid_r/grid_k, "
          "toFourier_linear, toReal_linear, toReal_toFourier and toFourier_toReal (from the kernel-checked DST orthogonality relations: dst3(dst2 x) = dst2(dst3 x) = 2N x), "
